@@ -160,11 +160,43 @@ fn verdict(p: V3, lon: f64, lat: f64, res: i32, t: &Tally, class: &str, tier_nam
     Ok(())
 }
 
+/// The library's own predicate against cells that are nowhere near the point (the ring oracle cannot be asked
+/// there: its gnomonic test needs the cell within a hemisphere of the point, and the cross-check in `judge` only
+/// covers two cell radii): a cell whose bounding cap does not reach the point must not claim it. All 72 cells
+/// of r <= 1, and one far cell in `stride` (chosen by the point's bits) above.
+fn far_cells_do_not_claim(p: V3, lon: f64, lat: f64, res: i32, rings: &[RingInfo], stride: usize, st: &mut Stats) -> Result<(), String> {
+    let stride = if res <= 1 { 1 } else { stride.max(1) };
+    let phase = (lon.to_bits() >> 11) as usize % stride;
+    let ll = api::lonlat(lon, lat.clamp(-90.0, 90.0));
+    let mut asked = 0u64;
+    for (i, info) in rings.iter().enumerate() {
+        if i % stride != phase {
+            continue;
+        }
+        let d = ang(p, info.centre);
+        if d <= 1.5 * info.cap + 1e-9 {
+            continue;
+        }
+        asked += 1;
+        if let Ok(v) = a5::core::cell::a5cell_contains_point(&crate::api::to_a5cell(&info.cell), ll) {
+            if v > 0.0 {
+                return Err(format!(
+                    "overlap at resolution {}: the library's containment test says point ({}, {}) is strictly inside cell {:#x} (value {:e}), whose centre is {:.4} rad away and whose corners all lie within {:.4} rad of that centre",
+                    res, lon, lat, info.id, v, d, info.cap
+                ));
+            }
+        }
+    }
+    st.add("exhaustive:far-cells-asked-through-the-library-predicate", asked);
+    Ok(())
+}
+
 fn check_exhaustive(src: &super::c01::Src, res: i32, st: &mut Stats) -> Result<(), String> {
     let (lon, lat, class) = src.with_res(res).lonlat()?;
     let p = vec_of_lonlat(lon, lat);
     let rings = all_rings(res).as_ref().map_err(|e| e.clone())?;
     let t = judge(p, rings.iter())?;
+    far_cells_do_not_claim(p, lon, lat, res, rings, 4, st)?;
     verdict(p, lon, lat, res, &t, class, "exhaustive", st)
 }
 
